@@ -26,8 +26,10 @@ package handler
 // unauthorized: answers 401 (once) and never runs the protected handler.
 //@ func unauthorized
 //@   prop C04
-//@   opaque detailAuthLog
-//@   ensures [401] calls(w.WriteHeader, 401) + calls(callback) >= 1 && (callback == nil ==> calls(w.WriteHeader, 401) == 1)
+//@   opaque detailAuthLog, NewHeaderOnceResponseWriter
+// the answer is 401 whatever the callback does: the status is written through a write-once wrapper AFTER the callback
+// ran (a callback that wrote its own status wins, one that only logs still leaves a 401)
+//@   ensures [always-401-after-the-callback] calls(local(writer).WriteHeader, 401) == 1 && calls(WriteHeader) == 1 && arg(response.NewHeaderOnceResponseWriter, 0) == w && (callback != nil ==> calls(callback) == 1 && arg(callback, 0) == local(writer) && arg(callback, 1) == r && arg(callback, 2) == err && before(callback, WriteHeader)) && (callback == nil ==> calls(callback) == 0)
 
 // The JWT gate (per request): the handler runs iff the token parsed, is valid and carries map claims;
 // otherwise `unauthorized` answers and the handler does not run.
